@@ -40,7 +40,7 @@ def RULE(tier):
         "inline_constants), inline_functions (every subset of the graph's functions as fast_functions), fuse_linear (rename on/off), "
         f"fuse over the grid ave_width{{1,2,3,inf}} x max_width{{None,1,2}} x max_height{{None,1,2}} x max_depth_new_edges{{None,1}} x rename{{True,False,custom}} "
         f"(full grid for n<=3{' and n=4' if tier == 'thorough' else ''}, 7 representative settings at the largest n), fuse_linear_task_spec, task-spec cull, resolve_aliases, "
-        "Task.fuse on every dependency path of length 2-3, GraphNode.substitute over every key->key map on the node's dependencies. "
+        "Task.fuse on every dependency path of length 2-3, GraphNode.substitute over every key->key map on the node's dependencies (dependencies passed positionally and as keyword TaskRefs). "
         "Oracle: requested keys present; dask.get on the result == reference values of the original; returned dependency map == get_dependencies "
         "of the returned graph; no exception, no hang. non-trivial = >= 3 nodes and >= 2 edges."
     )
@@ -120,6 +120,16 @@ def cases_of(shard, tier):
             elif op == "substitute":
                 if req == tuple(range(n)):
                     yield base + (None,)
+
+
+class KwF:
+    """structural task body taking its dependencies as keyword arguments"""
+
+    def __init__(self, i):
+        self.i = i
+
+    def __call__(self, **kw):
+        return ("kw", self.i, tuple(sorted(kw.items())))
 
 
 def custom_renamer(keys):
@@ -275,6 +285,27 @@ def run_case(case, ctx):
             if ok and not same(v, vals[p[-1]]):
                 ctx.violation("Task.fuse:wrong-value", case, f"path {p}: got {v!r} want {vals[p[-1]]!r}")
                 return
+        # the same dependencies passed as KEYWORD arguments (TaskRef values): substitute must rewrite those as well
+        for i in range(n):
+            if not deps[i]:
+                continue
+            dk = [K[j] for j in deps[i]]
+            base_t = ts.Task(K[i], KwF(i), **{f"p{q}": ts.TaskRef(d) for q, d in enumerate(dk)})
+            fresh_k = "fresh" if style != "int" else 77
+            for image in itertools.product(list(K[: min(n, 3)]) + [fresh_k], repeat=len(dk)):
+                m = dict(zip(dk, image))
+                ok, t2 = guard("substitute-kwargs", lambda: base_t.substitute(m))
+                if not ok:
+                    return
+                if set(t2.dependencies) != {m[d] for d in dk}:
+                    ctx.violation("substitute-kwargs:dependencies", case, f"node {i} map {m!r}: {t2.dependencies!r} want {sorted(map(repr, {m[d] for d in dk}))}")
+                    return
+                data = {k: ("val", repr(k)) for k in set(K) | {fresh_k}}
+                ok2, v2 = guard("substitute-kwargs:call", lambda: t2(data))
+                want2 = ("kw", i, tuple(sorted((f"p{q}", data[m[d]]) for q, d in enumerate(dk))))
+                if ok2 and not same(v2, want2):
+                    ctx.violation("substitute-kwargs:wrong-value", case, f"node {i} map {m!r}: {v2!r} want {want2!r}")
+                    return
         # substitute: every key->key map on the node's dependencies over the alphabet of graph keys + one fresh key
         fresh = "fresh" if style != "int" else 77
         for i in range(n):
